@@ -44,8 +44,11 @@ def run(ctx):
             N = rng.choice([4, 7, 10, 13]); lam = rng.choice([0.0, 0.5, 2.0]); frac = rng.choice([0.0, 0.3, 0.5, 1.0, 0.25]); dm = rng.random() < 0.8
             nh = g["H"].shape[0] if not g["shared"] else g["nv"]
             H = g["T"].copy()   # fit-style
-            eps = U.make_epochs_per_sample(g["w"], N)
             head = g["head"] % g["nv"]
+            # no isolated vertex: the density statistics divide by each vertex's phi_sum (see the known finding probed below)
+            head = np.concatenate([head, np.arange(g["nv"])]); g["tail"] = np.concatenate([g["tail"], ((np.arange(g["nv"]) + 1) % g["nv"]).astype(np.int32)])
+            g["w"] = np.concatenate([g["w"], np.full(g["nv"], 0.5, dtype=np.float32)])
+            eps = U.make_epochs_per_sample(g["w"], N)
             kw = dict(mu=g["w"].copy(), mu_sum=np.ones(g["nv"], dtype=np.float32), R=np.zeros(g["nv"], dtype=np.float32), var_shift=0.1)
             kw["lambda"] = lam; kw["frac"] = frac
             seen.clear()
@@ -191,5 +194,16 @@ def run(ctx):
         for off, code in enumerate(parse_zlist(bl[0])):
             ctx.traces += 1
             if code != -1: ctx.diff(rcases[off], "%s of vertex %d" % (rcases[off]["which"], code))
+    # ---- probe of the recorded finding: densmap=True on data with an isolated sample --------------------------------------
+    Xp = npr.normal(size=(40, 3)).astype(np.float32); Xp[0] += 1000
+    descp = dict(X=Xp, densmap=True, disconnection_distance=20.0, n_neighbors=5, n_epochs=30)
+    try:
+        outp = umap.UMAP(n_neighbors=5, n_epochs=30, random_state=1, disconnection_distance=20.0, densmap=True, output_dens=True).fit_transform(Xp)
+        embp = outp[0]
+        if not (np.isfinite(embp[1:]).all() and np.isfinite(outp[1][1:]).all() and np.isfinite(outp[2][1:]).all()):
+            ctx.fail("fit_transform:densmap_with_isolated_sample", "non-isolated samples got non-finite embedding / radii", descp)
+    except Exception as ex:
+        ctx.fail("fit_transform:densmap_with_isolated_sample", "%s: %s" % (type(ex).__name__, ex), descp)
+    ctx.tag(("probe", "densmap_isolated"), ["isolated_with_densmap_probe"])
     ctx.partial.append("the correctness of the densMAP gradient as a derivative is not claimed by the property and not proved")
     return ctx.finish(RULE, assumptions=["float32 kernel arithmetic observed with tolerance", "the embedding's fuzzy graph for rad_emb is rebuilt with the implementation's own graph stage (C01/C02 tie it to the model)"])
